@@ -105,6 +105,25 @@ def r_candc(repo, rep, R='R15.1'):
               'reader requires token fields %s; tokens created by of_word/of_piped have %s; leaf writes all fields: %s' % (sorted(need), [sorted(m) for m in made], star_leaf))
     rtxt = src(pt)
     rep.check('for child in node.children' in rtxt, R, w, 'candc:children', 'children are written in order under their rule element', 'children are not written in order')
+    # token values are written and read back verbatim
+    wrec = pm.get('_process_tree.rec')
+    token_keys = need | {'word'}
+    rewritten = []
+    for st, o in SymExec(wrec, unroll=1).run():
+        for e in st.events:
+            if e[0] == 'call' and e[1][1][0] == 'attr' and e[1][1][2] == 'set' and len(e[1][2]) == 2:
+                k, v = e[1][2]
+                if k[0] == 'const' and k[1] in token_keys:
+                    rewritten.append('%s=%s' % (k[1], show(v)[:50]))
+    rep.check(not rewritten, R, w, 'candc:token-verbatim:write', 'token fields are written exactly as stored in the token', 'token fields are rewritten on output: %s' % sorted(set(rewritten)))
+    transformed = []
+    for n in ast.walk(rec):
+        if isinstance(n, ast.Call) and src(n.func) == 'Token':
+            for kw_ in n.keywords:
+                if not (isinstance(kw_.value, ast.Subscript) and src(kw_.value.value) == 'attrib' and isinstance(kw_.value.slice, ast.Constant) and kw_.value.slice.value == kw_.arg):
+                    transformed.append('%s=%s' % (kw_.arg, src(kw_.value)[:50]))
+    rep.check(not transformed, R, '%s:%s read_xml' % (RD, rx.lineno), 'candc:token-verbatim:read', 'token fields are read back exactly as written (field k from attribute k)',
+              'token fields are transformed while reading: %s' % transformed)
     xo = pm.get('xml_of')
     s2 = set_calls(xo)
     ok = any({'sentence', 'id'} <= set(a) for a in s2.values())
@@ -257,12 +276,19 @@ def r_ids(repo, rep, R='R15.3'):
         pos_detail = 'position variable %s: initialised %s, leaf updates %s, other writes %d' % (pos[1], [src(i.value) for i in inits], [(a[2], show(a[3])) for a in augs], len(other) - 1)
     rep.check(pos_ok, R, w, 'jigg:leaf-position', 'the leaf position starts at 0 for every tree and advances by one per leaf (%s)' % pos_detail,
               'terminal references / offsets of the 2nd and later n-best trees are shifted: %s' % pos_detail)
-    sp = jm.get('_ConvertToJiggXML.spid')
-    ok = any('property' in src(d) for d in sp.decorator_list)
-    for st, o in SymExec(sp).run():
-        augs = [e for e in st.events if e[0] == 'aug' and e[1] == A(N('self'), '_spid') and e[2] == '+' and e[3] == C(1)]
-        ok = ok and len(augs) == 1 and st.ret == A(N('self'), '_spid')
-    rep.check(ok, R, '%s:%s spid' % (JX, sp.lineno), 'jigg:counter', 'the id counter advances by one on every read', 'spid does not advance on every read')
+    sp = jm.get('_ConvertToJiggXML.spid', required=False)
+    if sp is None:
+        rep.violation(R, w, 'jigg:counter', 'span ids are not drawn from a counter owned by the per-sentence converter: ids restart for every tree, so the n-best trees of a sentence share ids')
+    else:
+        ok = any('property' in src(d) for d in sp.decorator_list)
+        for st, o in SymExec(sp).run():
+            augs = [e for e in st.events if e[0] == 'aug' and e[1] == A(N('self'), '_spid') and e[2] == '+' and e[3] == C(1)]
+            ok = ok and len(augs) == 1 and st.ret == A(N('self'), '_spid')
+        init_ = jm.get('_ConvertToJiggXML.__init__')
+        ok = ok and any(isinstance(x, ast.Assign) and src(x.targets[0]) == 'self._spid' for x in ast.walk(init_)) and \
+            not any(isinstance(x, (ast.Assign, ast.AugAssign)) and 'self._spid' in src(x).split('=')[0] for x in ast.walk(jm.get('_ConvertToJiggXML.process')))
+        rep.check(ok, R, '%s:%s spid' % (JX, sp.lineno), 'jigg:counter', 'the id counter belongs to the per-sentence converter, starts once and advances by one on every read',
+                  'the span id counter does not advance on every read, or is reset per tree')
     proc = jm.get('_ConvertToJiggXML.process')
     okroot = False
     for st, o in SymExec(proc, unroll=1).run():
